@@ -81,9 +81,12 @@ FaultOffset(kind) == CASE kind = "parse" -> 10      \* vd__q = 1 ) ;      the st
                        [] kind = "runtime" -> 10    \* vd__q = 1 + "a";   the "+"
                        [] kind = "runtimeexit" -> 20 \* vd__q = {vd__a = 1; 5} count [1];   the "5": the block has run to its end when
                                                      \* count finds its value is no boolean - the culprit is the block's last expression
+                       [] kind = "parsestr" -> 10   \* vd__q = 1 "st" ;     the string literal (a token whose scanner moves line and column itself)
+                       [] kind = "runtimeexitstr" -> 20 \* vd__q = {vd__a = 1; "t"} count [1];   the string
                        [] OTHER -> 0
 \* the stack-trace entries of the calling frames name the call site (the same token unless the fault is raised inside a block)
-CallOffset(kind) == IF kind = "runtimeexit" THEN 23 ELSE FaultOffset(kind)      \* ... the "count"
+CallOffset(kind) == IF kind = "runtimeexit" THEN 23 ELSE IF kind = "runtimeexitstr" THEN 25 ELSE FaultOffset(kind)      \* ... the "count"
+InBlock(kind) == kind \in {"runtimeexit", "runtimeexitstr"}
 \* pre = 1: a statement holding a string with an escaped quote stands in front of the fault on the same line
 PreText == "vd__s = \"p\"\"q\"; "
 PreLen == 16
@@ -112,6 +115,8 @@ Rep(s, n) == IF n <= 0 THEN "" ELSE s \o Rep(s, n - 1)
 FaultText(f, nl) == Pad(f.pad) \o (IF f.pre = 1 THEN PreText ELSE "") \o (CASE f.kind = "parse" -> "vd__q = 1 ) ;"
                                  [] f.kind = "runtime" -> "vd__q = 1 + \"a\";"
                                  [] f.kind = "runtimeexit" -> "vd__q = {vd__a = 1; 5} count [1];"
+                                 [] f.kind = "parsestr" -> "vd__q = 1 \"st\" ;"
+                                 [] f.kind = "runtimeexitstr" -> "vd__q = {vd__a = 1; \"t\"} count [1];"
                                  [] f.kind = "linemacroeol" -> "vd__m = [__LINE__" \o nl \o ", __FILE__];"
                                  [] OTHER -> "vd__m = [__LINE__, __FILE__];")
 \* text of an element, every physical line terminated by nl
